@@ -292,11 +292,17 @@ def tables() -> dict:
     # to a method compiled for that class (`if self.__class__ is not _method_owner:` + lazy compilation)
     bsrc = _src("mashumaro/core/meta/code/builder.py")
     t["packOwnerGuard"] = False
+    t["packOwnerGuardPlain"] = False
     for node in ast.walk(ast.parse(bsrc)):
         if isinstance(node, ast.FunctionDef) and node.name == "_add_pack_method_lines":
             for w in ast.walk(node):
                 if isinstance(w, ast.With) and "self.__class__ is not _method_owner" in ast.unparse(w.items[0].context_expr):
                     t["packOwnerGuard"] = any("_add_pack_method_lines_lazy" in ast.unparse(b) for b in w.body)
+            # ... and is the guard emitted for the dict format of a class that is not a mixin subclass (a plain
+            # dataclass, whose to_dict method is compiled on demand as well)?
+            for w in ast.walk(node):
+                if isinstance(w, ast.If) and any(isinstance(x, ast.With) and "_method_owner" in ast.unparse(x.items[0].context_expr) for x in w.body):
+                    t["packOwnerGuardPlain"] = t["packOwnerGuard"] and "is_dataclass_dict_mixin_subclass" in ast.unparse(w.test)
     t["tzParseFullMatch"] = False
     for node in ast.walk(ast.parse(_src("mashumaro/core/helpers.py"))):
         if isinstance(node, ast.FunctionDef) and node.name == "parse_timezone":
@@ -366,6 +372,7 @@ def render(t: dict) -> str:
     L.append("def substAnnotatedRecursive : Bool := " + ("true" if t["substAnnotatedRecursive"] else "false"))
     L.append("/-- builder._add_pack_method_lines: an instance of another class is packed by a method compiled for its own class -/")
     L.append("def packOwnerGuard : Bool := " + ("true" if t["packOwnerGuard"] else "false"))
+    L.append("def packOwnerGuardPlain : Bool := " + ("true" if t["packOwnerGuardPlain"] else "false"))
     L.append("")
     L.append("end Mashu.Generated")
     return "\n".join(L) + "\n"
